@@ -229,7 +229,7 @@ class DiskCache:
         """
         try:
             raw_bytes = pickle.dumps(value)
-        except (pickle.PicklingError, TypeError, AttributeError):
+        except (pickle.PicklingError, TypeError, AttributeError, ValueError, RecursionError):
             logger.warning("Cache write skipped: output not picklable for key %s", key)
             return
 
@@ -252,7 +252,7 @@ def compute_cache_key(definition_hash: str, inputs: dict[str, Any]) -> str:
     try:
         sorted_items = sorted(inputs.items())
         inputs_bytes = pickle.dumps(sorted_items)
-    except (pickle.PicklingError, TypeError, AttributeError) as exc:
+    except (pickle.PicklingError, TypeError, AttributeError, ValueError, RecursionError) as exc:
         logger.warning("Cache miss: inputs not picklable (%s)", exc)
         return ""
     content = definition_hash.encode() + inputs_bytes
